@@ -26,6 +26,7 @@ package metadata
 //@   at watch#1 before assert [C20.p_initial_watch_starts_after_initial_load] gErr == nil && arg1 == gRev
 
 //@ func (r *PartitionRouter) watch
+//@   spawn_never_writes [C20.p_table_written_only_in_watch_order] PartitionRouter.routes
 //@   ghost gApplied int64 = rev
 //@   ghost gOpt clientv3.OpOption = nil
 //@   loop 1 invariant rev == gApplied
@@ -54,6 +55,7 @@ package metadata
 //@   at watch#1 before assert [C20.g_initial_watch_starts_after_initial_load] gErr == nil && arg1 == gRev
 
 //@ func (r *GroupRouter) watch
+//@   spawn_never_writes [C20.g_table_written_only_in_watch_order] GroupRouter.routes
 //@   ghost gApplied int64 = rev
 //@   ghost gOpt clientv3.OpOption = nil
 //@   loop 1 invariant rev == gApplied
